@@ -27,8 +27,10 @@ class Grid:
         self.shape = shape
         """tuple: Shape of grid, using matrix/tensor indexing."""
 
+        # NOTE: Use double precision, irrespective of the type of the sizes; cell volumes
+        # of integer sizes (e.g. in nanometres) overflow.
         self.voxel_size = (
-            np.array(voxel_size)
+            np.array(voxel_size, dtype=float)
             if isinstance(voxel_size, list)
             else voxel_size * np.ones(self.dim)
         )
